@@ -128,6 +128,11 @@ func Load(o LoadOpts) (*World, error) {
 				names = nil
 				o2 := o
 				o2.Overlay = ov
+				if d := os.Getenv("MKDBCHECK_DEBUG_INLINE"); d != "" {
+					for name, b := range ov {
+						os.WriteFile(d+"/"+strings.ReplaceAll(strings.TrimPrefix(name, o.Dir), "/", "_"), b, 0644)
+					}
+				}
 				w2, err2 := loadOnce(o2)
 				if err2 != nil {
 					w.InlineNotes = append(w.InlineNotes, fmt.Sprintf("local substitution abandoned for %v: %v", subs, err2))
@@ -168,8 +173,15 @@ func Load(o LoadOpts) (*World, error) {
 		keepR := w.Renamed
 		w2.aliasRenamed()
 		w2.Renamed = keepR
-		w2.Inlined = append(append([]string{}, w.Inlined...), names...)
+		w2.Inlined = append([]string{}, w.Inlined...)
 		w2.InlineNotes = w.InlineNotes
+		for _, n := range names {
+			if strings.HasPrefix(n, "local ") {
+				w2.InlineNotes = append(w2.InlineNotes, n)
+			} else {
+				w2.Inlined = append(w2.Inlined, n)
+			}
+		}
 		w, o = w2, o2
 	}
 	return w, nil
